@@ -343,11 +343,24 @@ def main():
         confs = list(ex.map(lambda r: confirm(runner, r['_q'], r, replay_dir), todo))
     for r, (ok, msg, rp) in zip(todo, confs):
         q = r['_q']
-        desc = '; '.join('%s %s' % (v[1], v[2]) for v in (r.get('fails') or {}).values())
-        kf = match_known(known, q, desc + ' ' + msg)
-        if kf:
-            known_hits.append((kf, q.name, desc or msg))
-            continue
+        fl = r.get('fails') or {}
+        if fl:
+            # per failing property: known finding or not (a known finding must not hide a new failure of the same query)
+            kfs = [(match_known(known, q, v[1]), k, v) for k, v in fl.items()]
+            unknown = {k: v for (kf_, k, v) in kfs if kf_ is None}
+            for kf_ in set(id(x[0]) for x in kfs if x[0] is not None):
+                kk = [x[0] for x in kfs if x[0] is not None and id(x[0]) == kf_][0]
+                known_hits.append((kk, q.name, kk.get('assertion', '')))
+            if not unknown:
+                continue
+            desc = '; '.join('%s %s' % (v[1], v[2]) for v in unknown.values())
+            r['fails'] = unknown
+        else:
+            desc = ''
+            kf = match_known(known, q, msg)
+            if kf:
+                known_hits.append((kf, q.name, msg))
+                continue
         only_unwind = r.get('fails') and all('unwind' in k for k in r['fails'])
         tagn = re.sub(r'[^A-Za-z0-9_.-]', '_', q.name)
         if ok:
